@@ -5,8 +5,15 @@
 //! trusted: R15 (deep slice): handle_monitor_update_release: the predicate of the `retain` that removes the completed blocker from its channel's list, verbatim as a bool function; RAAMonitorUpdateBlockingAction's derived PartialEq is structural equality; the retain call itself and the removal of an emptied list are dropped and not claimed; raa_monitor_updates_held: the closure body and the default of `.get(&channel_id).map(|v| ..).unwrap_or(..)` (first disjunct) are placed in the two arms of a match on the looked-up list (std semantics of Option::map / unwrap_or); the second disjunct (pending ReleaseRAAChannelMonitorUpdate events) is dropped and not claimed
 //! trusted: R15 (deep slices): ChannelMonitorImpl::is_resolving_htlc_output: the two predicates that decide whether an on-chain preimage claim has already been reported (closure bodies of the `any` over pending_monitor_events) and the two HTLCUpdate values pushed as MonitorEvent::HTLCEvent, verbatim as functions; struct HTLCUpdate is extracted; HTLCSource opaque with structural equality; scanning the commitment for the HTLC, the ANTI_REORG_DELAY bookkeeping and the timeout branch are dropped and not claimed
 //! trusted: env: the BTreeMap<ChannelId, Vec<RAAMonitorUpdateBlockingAction>> is an environment type whose entry API carries the std contracts, written with Verus' mutable-reference prophecy: entry(k) lends the slot of k (None when absent), what is left in the slot is what the map holds afterwards; or_insert_with / or_insert / or_default fill an empty slot (with the result of the closure / the value / an empty Vec) and lend the vector; Vec::new has vstd's specification; a key closure without a specification is unconstrained; RAAMonitorUpdateBlockingAction is opaque, from_prev_hop_data is an uninterpreted function of the hop data; R3: log_trace! statements removed; R10: `blocked_peer_state.lock().unwrap()` is written `blocked_peer_state` (Mutex guard elided: single-threaded reading)
+//! trusted: assume_specification for core::cmp::max / core::cmp::min (std definitions): present in every unit so that a change that introduces them is verified instead of being rejected by the tool
 use vstd::prelude::*;
 verus! {
+use vstd::std_specs::cmp::*;
+use core::cmp;
+pub assume_specification<T: core::cmp::Ord>[core::cmp::max::<T>](a: T, b: T) -> (r: T)
+    ensures T::obeys_cmp_spec() ==> r == (if b.cmp_spec(&a) == core::cmp::Ordering::Less { a } else { b });
+pub assume_specification<T: core::cmp::Ord>[core::cmp::min::<T>](a: T, b: T) -> (r: T)
+    ensures T::obeys_cmp_spec() ==> r == (if b.cmp_spec(&a) == core::cmp::Ordering::Less { b } else { a });
 #[derive(Clone, Copy)]
 pub struct ChannelId(pub [u8; 32]);
 pub struct HTLCPreviousHopData { pub opaque: u64 }
